@@ -57,3 +57,29 @@ def install(w):
                loops={1: {"invariant": ["ghost('unvisited2') <= old(ghost('unvisited2'))",
                                         "ghost('unvisited2') >= 0"]}},
                props={"C01"})
+
+    # ---- NoFragmentCyclesRule: DFS over the spread graph; a fragment is entered once --------------
+    NFC = "graphql.validation.rules.no_fragment_cycles"
+    VC = "graphql.validation.validation_context"
+    w.alias("NoFragmentCyclesRule", f"{NFC}.NoFragmentCyclesRule")
+    w.shape("NoFragmentCyclesRule", visited_frags=("nameset", "nfc_unvisited"),
+            spread_path=("list", "ref:FragmentSpreadNode"), spread_path_index_by_name=("map", "int"),
+            context="obj:ValidationContext")
+    w.contract(f"{NFC}.NoFragmentCyclesRule.detect_cycle_recursive",
+               params={"fragment": "ref:FragmentDefinitionNode"},
+               # the fragment is one of the document's definitions (get_fragment found it / the
+               # traversal entered it)
+               # and it is not on the current spread path (its name has no path index)
+               requires=["ns_universe(fragment.name.value)",
+                         "not mhas(self.spread_path_index_by_name, fragment.name.value)"],
+               ensures=["ghost('nfc_unvisited') <= old(ghost('nfc_unvisited'))", "ghost('nfc_unvisited') >= 0",
+                        # the path index is restored: exactly the names on the caller's path
+                        "forall_int(k, mhas(self.spread_path_index_by_name, k)"
+                        " == old(mhas(self.spread_path_index_by_name, k)))"],
+               raises=["GraphQLError"], modifies=None, ghost_modifies=["nfc_unvisited"], modifies_maps=True,
+               decreases=["ghost('nfc_unvisited')"],
+               loops={1: {"invariant": ["ghost('nfc_unvisited') <= old(ghost('nfc_unvisited')) - 1",
+                                        "ghost('nfc_unvisited') >= 0",
+                                        "forall_int(k, mhas(spread_path_index, k) =="
+                                        " (old(mhas(self.spread_path_index_by_name, k)) or k == mkey(fragment_name)))"]}},
+               props={"C01"})
